@@ -10,6 +10,8 @@ Extraction points (all must be found with exactly the expected shape, else Extra
   * `if isinstance(tp.result, model.StructOrUnion): size_of_a = 'sizeof(%s) > %d ? sizeof(%s) : %d' % (...)`
   * the store `prnt('  *(%s)(p + %d) = %s;' % (type.get_c_name('*'), i*K', arg))` and the by-reference
     condition `isinstance(type, model.StructOrUnion) or may_need_128_bits(type)` in front of it
+  * reader side, src/c/_cffi_backend.c general_invoke_callback: `a_src = args + i * K;` and
+    `if (a_ct->ct_flags & (F1 | F2 | ...)) a_src = *(char **)a_src;`
 """
 import ast
 import os
@@ -48,10 +50,15 @@ def _prim_name_test(node, subject):
     a, b = node.values
     need(isinstance(a, ast.Call) and _is_name(a.func, "isinstance") and _attr_chain(a.args[0]) == subject
          and _attr_chain(a.args[1]) == "model.PrimitiveType", "unexpected isinstance test for " + subject)
-    need(isinstance(b, ast.Compare) and len(b.ops) == 1 and isinstance(b.ops[0], ast.Eq)
-         and _attr_chain(b.left) == subject + ".name" and isinstance(b.comparators[0], ast.Constant)
-         and isinstance(b.comparators[0].value, str), "unexpected name comparison for " + subject)
-    return b.comparators[0].value
+    need(isinstance(b, ast.Compare) and len(b.ops) == 1 and _attr_chain(b.left) == subject + ".name",
+         "unexpected name comparison for " + subject)
+    c = b.comparators[0]
+    if isinstance(b.ops[0], ast.Eq) and isinstance(c, ast.Constant) and isinstance(c.value, str):
+        return [c.value]
+    need(isinstance(b.ops[0], ast.In) and isinstance(c, (ast.Tuple, ast.List))
+         and all(isinstance(e, ast.Constant) and isinstance(e.value, str) for e in c.elts),
+         "name test for %s is neither `== '<name>'` nor `in (<names>)`" % subject)
+    return [e.value for e in c.elts]
 
 
 def extract(repo):
@@ -66,7 +73,7 @@ def extract(repo):
     helper = [n for n in fn.body if isinstance(n, ast.FunctionDef) and n.name == "may_need_128_bits"]
     need(len(helper) == 1 and len(helper[0].body) == 1 and isinstance(helper[0].body[0], ast.Return),
          "nested may_need_128_bits not found in the expected shape")
-    names128 = [_prim_name_test(helper[0].body[0].value, "tp")]
+    names128 = _prim_name_test(helper[0].body[0].value, "tp")
     # ---- size_of_a
     slot = min_area = None
     wide_rules = []
@@ -100,7 +107,7 @@ def extract(repo):
                         need(_attr_chain(t.args[0]) == "tp.result", "may_need_128_bits applied to something else")
                         names += names128
                     else:
-                        names.append(_prim_name_test(t, "tp.result"))
+                        names += _prim_name_test(t, "tp.result")
                 wide_rules.append((names, asg.args[1].value))
             else:
                 need(isinstance(test, ast.Call) and _is_name(test.func, "isinstance")
@@ -135,8 +142,24 @@ def extract(repo):
     need(stride is not None, "the store `*(T *)(p + i*K) = a_i` not found")
     need(byref_ok, "the by-reference condition (StructOrUnion or may_need_128_bits) not found")
     need(stride == slot, "slot stride %r differs from the factor %r of len(tp.args)" % (stride, slot))
+    reader = extract_reader(repo)
     return {"slot": slot, "min_area": min_area, "wide_rules": wide_rules, "struct_rule": struct_rule,
-            "byref_prims": names128}
+            "byref_prims": names128, "byref_classes": ["StructOrUnion"], **reader}
+
+
+def extract_reader(repo):
+    """general_invoke_callback, branch `decode_args_from_libffi == 0`: the slot stride and the by-reference test."""
+    import re
+    src = open(os.path.join(repo, "src/c/_cffi_backend.c")).read()
+    m = re.search(r"static void general_invoke_callback\(.*?\n\}\n", src, re.S)
+    need(m, "_cffi_backend.c: general_invoke_callback not found")
+    body = re.sub(r"/\*.*?\*/", " ", m.group(0), flags=re.S)
+    mm = re.search(r"else \{\s*a_src = args \+ i \* (\d+);\s*if \((.*?)\)\s*a_src = \*\(char \*\*\)a_src;\s*\}", body, re.S)
+    need(mm, "general_invoke_callback: `a_src = args + i * K; if (<test>) a_src = *(char **)a_src;` not found")
+    cond = re.sub(r"\s+", " ", mm.group(2)).strip()
+    mf = re.match(r"a_ct->ct_flags & \(([A-Z_| ]+)\)$", cond)
+    flags = sorted(f.strip() for f in mf.group(1).split("|")) if mf else ["<not a flag test> " + cond]
+    return {"reader_stride": int(mm.group(1)), "reader_flags": flags}
 
 
 def lstr(s):
@@ -163,12 +186,20 @@ def wideRules : List (List String × Nat) := [%s]
 /-- `if isinstance(tp.result, model.StructOrUnion): size_of_a = sizeof(R) > size_of_a ? sizeof(R) : size_of_a` present -/
 def structRule : Bool := %s
 
-/-- primitive argument types stored by reference (`may_need_128_bits`); structs and unions always are -/
+/-- writer (`_extern_python_decl`): `isinstance(type, model.<class>) or may_need_128_bits(type)` — the model classes
+and the primitive names whose arguments are stored as `&a_i` -/
+def byRefClasses : List String := [%s]
 def byRefPrims : List String := [%s]
+
+/-- reader (`general_invoke_callback`, `decode_args_from_libffi == 0`): `a_src = args + i * K` and the flags of
+`if (a_ct->ct_flags & (<flags>)) a_src = *(char **)a_src` (sorted; a test of another shape is kept verbatim) -/
+def readerStride : Nat := %d
+def readerByRefFlags : List String := [%s]
 
 end CffiVerif.Generated.ExternPySize
 """ % (ex["slot"], ex["min_area"], rules, "true" if ex["struct_rule"] else "false",
-       ", ".join(lstr(n) for n in ex["byref_prims"]))
+       ", ".join(lstr(n) for n in ex["byref_classes"]), ", ".join(lstr(n) for n in ex["byref_prims"]),
+       ex["reader_stride"], ", ".join(lstr(n) for n in ex["reader_flags"]))
 
 
 def translator(ctx=None):
